@@ -28,7 +28,7 @@ Definition enable_ok (su : setup) (init : obs) (st : list istep) : bool :=
     forallb (fun e =>
       match e with
       | ORet _ (RetEnable (EOk v)) =>
-          installed init st v && (negb (p_delay (su_p su)) || verify3 (snd v))
+          installed init st v && (negb (p_delay (su_p su)) || verifyS su (snd v))
           && (if existsb (fun b => b) (map fst (su_srcs su)) then true else vc_eqb v (o_val (i_obs x)))
       | _ => true
       end) (o_evs (i_obs x))) st.
@@ -96,7 +96,7 @@ Definition spec_ok (c : ccase) : bool :=
       never_early su vl st &&
       ((negb (res =? 0)) ||
        (enable_ok su init st && withheld_while_suppressed su st && delivered_otherwise su init st
-        && stores_verified (su_p su) init st))
+        && stores_verified su init st))
   end.
 
 Definition check (c : ccase) : N := verdict (spec_ok c) c.
